@@ -18,6 +18,7 @@ CONSTANTS Start,      \* which creation prefix the room starts from (1 or 2)
           ForkFrom,   \* smallest event id that may be used as a prev event of a new event
           TSChoices,  \* timestamp ranks a new event may carry
           IdDesc,     \* TRUE: later events get lexicographically smaller IDs / SHA-1 ranks
+          Addl,       \* additional_creators named by the create event (meaningful in privileged-creator versions only)
           MaxBad,     \* with Dishonest: how many such events may be sent
           Dishonest   \* TRUE: servers may also send events their own state does not allow (a joined user of any
                       \* level sends power events); such events sit in branches and auth chains and must lose
@@ -36,14 +37,15 @@ IdRank(i) == IF IdDesc THEN 100 - i ELSE i
 
 Ev(type, sender, skey, membership, plu, jr, prev, auth, depth, ts, i) ==
     [type |-> type, sender |-> sender, skey |-> skey, membership |-> membership, plu |-> plu, jr |-> jr,
-     prev |-> prev, auth |-> auth, depth |-> depth, ts |-> ts, idr |-> IdRank(i), sha |-> IdRank(i), rejected |-> FALSE]
+     prev |-> prev, auth |-> auth, depth |-> depth, ts |-> ts, idr |-> IdRank(i), sha |-> IdRank(i), rejected |-> FALSE,
+     addl |-> {}]
 
 InitPL == IF PrivilegedCreators(Ver) THEN NoUsers
           ELSE [u \in Users |-> IF u = "creator" THEN 4 ELSE Absent]
 
 \* creation prefix: create, creator joins, power levels, public join rule, alice and bob join
 Prefix ==
-    << Ev("create", "creator", "", "", NoUsers, "", {}, {}, 1, 1, 1),
+    << [Ev("create", "creator", "", "", NoUsers, "", {}, {}, 1, 1, 1) EXCEPT !.addl = Addl],
        Ev("member", "creator", "creator", "join", NoUsers, "", {1}, {1}, 2, 1, 2),
        Ev("pl", "creator", "", "", InitPL, "", {2}, {1, 2}, 3, 1, 3),
        Ev("jr", "creator", "", "", NoUsers, "public", {3}, {1, 2, 3}, 4, 1, 4),
@@ -112,7 +114,7 @@ PLLevels == {1, 3, 4}
 
 \* Send: user u adds one event on top of the antichain prevs, S being the state resolved there
 MemIn(S, u) == LET m == ForKey(E, S, <<"member", u>>) IN IF m = {} THEN "absent" ELSE E[CHOOSE x \in m : TRUE].membership
-LevelIn(S, u) == IF PrivilegedCreators(Ver) /\ u = "creator" THEN Inf
+LevelIn(S, u) == IF PrivilegedCreators(Ver) /\ u \in ({"creator"} \cup Addl) THEN Inf
                  ELSE Eff(PLIn(S).users[u], Thr(PLIn(S), "users_default"))
 
 \* cheap necessary conditions of the auth rules (thresholds keep their defaults in this model); they only
